@@ -84,3 +84,112 @@ Proof.
   - rewrite S. apply reasm_e2e_dup_chunk with (c := c). exact Hcv.
 Qed.
 End More.
+
+(* ================================================================================================
+   C11: the avalanche stage is a function of the slot contents of the event
+   ================================================================================================ *)
+From AG Require Import Signal.Ring Signal.Avalanches Signal.AvalTotal Event.EventSlots.
+
+Lemma Nseq_length a n : length (Nseq a n) = N.to_nat n.
+Proof. unfold Nseq. rewrite map_length, seq_length. reflexivity. Qed.
+Lemma Nseq_nth n w : w < n -> nth_error (Nseq 0 n) (N.to_nat w) = Some w.
+Proof.
+  intros H. unfold Nseq. replace (Some w) with (Some (0 + N.of_nat (N.to_nat w))) by (f_equal; lia).
+  apply map_nth_error. rewrite (nth_error_nth' _ O) by (rewrite seq_length; lia).
+  rewrite seq_nth by lia. reflexivity.
+Qed.
+
+Section SlotsProofs.
+Context {F : Type}.
+Implicit Types ev a b : event F.
+
+(* the slot arrays hold exactly the slot contents, at the index of the slot; they have the shape of the Rust arrays *)
+Lemma wire_slots_nth ev w : w < NW -> nth_error (wire_slots ev) (N.to_nat w) = Some (wire_at ev w).
+Proof. intros H. unfold wire_slots. apply map_nth_error. apply Nseq_nth. assumption. Qed.
+Lemma pad_slots_nth ev c r : c < NCOLS -> r < NROWS ->
+  exists col, nth_error (pad_slots ev) (N.to_nat c) = Some col /\ nth_error col (N.to_nat r) = Some (pad_at ev c r).
+Proof.
+  intros Hc Hr. exists (map (pad_at ev c) (Nseq 0 NROWS)). split.
+  - unfold pad_slots. apply (map_nth_error (fun c => map (pad_at ev c) (Nseq 0 NROWS))). apply Nseq_nth. assumption.
+  - apply map_nth_error. apply Nseq_nth. assumption.
+Qed.
+Lemma main_event_of_shape ev : event_shape (main_event_of ev).
+Proof.
+  unfold event_shape, main_event_of, wire_slots, pad_slots. cbn [wire_signals pad_signals].
+  rewrite !map_length, !Nseq_length, !N2Nat.id. split; [reflexivity|]. split; [reflexivity|].
+  apply Forall_forall. intros col Hc. apply in_map_iff in Hc as (c & <- & _).
+  rewrite map_length, Nseq_length, N2Nat.id. reflexivity.
+Qed.
+
+(* events with the same timestamp and the same content of every slot give the same MainEvent value *)
+Lemma main_event_of_ev_eq a b : ev_eq a b -> main_event_of a = main_event_of b.
+Proof.
+  intros (Ht & Hw & Hp). unfold main_event_of, wire_slots, pad_slots. rewrite Ht. f_equal.
+  - apply map_ext. exact Hw.
+  - apply map_ext. intros c. apply map_ext. intros r. apply Hp.
+Qed.
+End SlotsProofs.
+
+Section AvalPerm.
+Variable FT : Type.
+Variable fcal : Z -> FT -> FT.
+Variable gain_of : Z * Z -> FT.
+
+(* for every permutation of the RAW bank list and any two HashMap iteration orders: success is alike, and on success
+   the two events are the same MainEvent value (same 256 / 32 x 576 slot arrays, same timestamp) *)
+Theorem e2e_main_event_perm_invariant m run banks banks' order order' :
+  Forall bytes (map snd banks) -> Permutation banks banks' -> is_order order -> is_order order' ->
+  is_ok (try_from_banks_model fcal gain_of m run banks order) =
+  is_ok (try_from_banks_model fcal gain_of m run banks' order') /\
+  (forall ev ev', try_from_banks_model fcal gain_of m run banks order = Ok ev ->
+                  try_from_banks_model fcal gain_of m run banks' order' = Ok ev' ->
+                  main_event_of ev = main_event_of ev').
+Proof.
+  intros Hb P O O'. destruct (e2e_build_perm_invariant FT fcal gain_of m run banks banks' order order' Hb P O O') as [H1 H2].
+  split; [exact H1|]. intros ev ev' E E'. apply main_event_of_ev_eq. eapply H2; eassumption.
+Qed.
+End AvalPerm.
+
+(* the avalanche stage (panic-aware model avalanches_res of Signal/AvalTotal.v and the pure C13 skeleton `avalanches`
+   of Signal/Avalanches.v) reads the event only through the two slot arrays: equal slot contents, equal results,
+   for every choice of the kernels *)
+Theorem avalanches_respect_ev_eq (F amp zt : Type) (azero : amp) (apos : amp -> bool) (agt : amp -> amp -> bool)
+    (pcmp : amp -> amp -> option comparison) (zf : N -> amp -> amp -> amp -> zt) (slen : list F -> nat)
+    (solve : nat -> list (list F) -> list (list amp)) (wdec : list amp -> res (list amp))
+    (pdec : list F -> res (list amp)) (D : list (list F) -> list (list amp)) (P : list F -> list amp)
+    (sortW : list (N * amp) -> list (N * amp)) (sortP : list (zt * amp) -> list (zt * amp)) (a b : event F) :
+  ev_eq a b ->
+  avalanches_res azero apos agt pcmp zf slen solve wdec pdec sortW sortP (wire_slots a) (pad_slots a) =
+  avalanches_res azero apos agt pcmp zf slen solve wdec pdec sortW sortP (wire_slots b) (pad_slots b) /\
+  avalanches azero apos agt zf D P sortW sortP (wire_slots a) (pad_slots a) =
+  avalanches azero apos agt zf D P sortW sortP (wire_slots b) (pad_slots b) /\
+  timestamp_res (main_event_of a) = timestamp_res (main_event_of b).
+Proof.
+  intros H. pose proof (main_event_of_ev_eq a b H) as Hm.
+  pose proof (f_equal wire_signals Hm) as Hw. pose proof (f_equal pad_signals Hm) as Hp.
+  cbn [main_event_of wire_signals pad_signals] in Hw, Hp. rewrite Hw, Hp, Hm. repeat split; reflexivity.
+Qed.
+
+Theorem e2e_avalanches_perm_invariant (F : Type) (fcal : Z -> F -> F) (gain_of : Z * Z -> F) (m : ovf) (run : N)
+    (banks banks' : list (list N * list N)) (order order' : list (list chunkv) -> list (list chunkv)) :
+  Forall bytes (map snd banks) -> Permutation banks banks' -> is_order order -> is_order order' ->
+  is_ok (try_from_banks_model fcal gain_of m run banks order) =
+  is_ok (try_from_banks_model fcal gain_of m run banks' order') /\
+  (forall ev ev', try_from_banks_model fcal gain_of m run banks order = Ok ev ->
+                  try_from_banks_model fcal gain_of m run banks' order' = Ok ev' ->
+     main_event_of ev = main_event_of ev' /\
+     forall (amp zt : Type) (azero : amp) (apos : amp -> bool) (agt : amp -> amp -> bool)
+       (pcmp : amp -> amp -> option comparison) (zf : N -> amp -> amp -> amp -> zt) (slen : list F -> nat)
+       (solve : nat -> list (list F) -> list (list amp)) (wdec : list amp -> res (list amp))
+       (pdec : list F -> res (list amp)) (D : list (list F) -> list (list amp)) (P : list F -> list amp)
+       (sortW : list (N * amp) -> list (N * amp)) (sortP : list (zt * amp) -> list (zt * amp)),
+     avalanches_res azero apos agt pcmp zf slen solve wdec pdec sortW sortP (wire_slots ev) (pad_slots ev) =
+     avalanches_res azero apos agt pcmp zf slen solve wdec pdec sortW sortP (wire_slots ev') (pad_slots ev') /\
+     avalanches azero apos agt zf D P sortW sortP (wire_slots ev) (pad_slots ev) =
+     avalanches azero apos agt zf D P sortW sortP (wire_slots ev') (pad_slots ev') /\
+     timestamp_res (main_event_of ev) = timestamp_res (main_event_of ev')).
+Proof.
+  intros Hb P O O'. destruct (e2e_build_perm_invariant F fcal gain_of m run banks banks' order order' Hb P O O') as [H1 H2].
+  split; [exact H1|]. intros ev ev' E E'. pose proof (H2 ev ev' E E') as He.
+  split; [apply main_event_of_ev_eq; exact He|]. intros. apply avalanches_respect_ev_eq. exact He.
+Qed.
